@@ -51,7 +51,7 @@ fn bounds(ch: &mut Choices, case: &mut Case) -> Result<(), String> {
     // selectors straddling the bounds: years are drawn from 1900.. or ..9999
     let low = ch.chance(50);
     let base_year = if low { 1900 } else { 9992 };
-    let cfg = Cfg { max_rules: 3, base_year, wide_years: ch.chance(30), dense: ch.chance(30), max_day_offset: 40, ..Cfg::default() };
+    let cfg = Cfg { max_rules: 3, base_year, wide_years: ch.chance(30), dense: ch.chance(30), max_day_offset: 40, jumpable_pct: 15, ..Cfg::default() };
     let g = if ch.chance(12) {
         // what the last day before the range spills into its first day, and the last day of the
         // range past its end: selectors matching Dec 31 / the last week, spans reaching the next day
@@ -300,7 +300,7 @@ fn zone_extremes(ch: &mut Choices, case: &mut Case) -> Result<(), String> {
     };
     let low = ch.chance(50);
     let base_year = if low { 1900 } else { 9992 };
-    let cfg = Cfg { max_rules: 3, base_year, wide_years: ch.chance(30), dense: ch.chance(40), max_day_offset: 20, ..Cfg::default() };
+    let cfg = Cfg { max_rules: 3, base_year, wide_years: ch.chance(30), dense: ch.chance(40), max_day_offset: 20, jumpable_pct: 15, ..Cfg::default() };
     let g = gen_case(ch, &cfg)?;
     label_expr(&g.ast, case);
     let tz = zone(ch);
